@@ -167,5 +167,18 @@ func checkDefs() map[string]CheckDef {
 		BoundsText:  "three channels of one client with peer lists {P}, {P,Q}, {Q}, the third a child of the first; all histories of h steps (h=4 quick, 5 thorough) over {create (real API up to Acting), advance (full update, or stopped after the own signature), remove} x channel; after every step: RestoreAll, RestorePeer(P), RestorePeer(Q), ActivePeers, RestoreChannel for all three and the raw key set are compared with the reference set of live channels; restored data is compared leaf by leaf with the live machines",
 		Outside:     []string{"LevelDB", "more than three channels / two peers", "channel IDs whose relative order differs from the three concrete ones"},
 	})
+	add(CheckDef{
+		ID: "C20",
+		Obligations: []Obligation{
+			{Pkg: "internal/verifh/c20", Harness: "VerifC20LedgerIDs", Quick: map[string]int{"maxAssets": 4}, TV: 20},
+			{Pkg: "internal/verifh/c20", Harness: "VerifC20Dispatch", Sched: true, Quick: map[string]int{"P": 0, "ledgers": 3, "maxAssets": 3, "plainAsset": 1}, Thor: map[string]int{"ledgers": 4, "maxAssets": 4}, TV: 30},
+		},
+		Assumptions: append(append([]string{}, commonAssumptions...),
+			"goroutines are run by the engine's cooperative scheduler: every order in which the concurrent sub-calls start, complete and deliver their result is explored (preemption bound P=0: a goroutine is switched away from only when it blocks or ends; the stubs take a mutex at entry and exit, so entry/exit interleavings are explored)",
+			"context.WithTimeout is the plain-Go context model of the harness runtime on the engine's virtual clock; the funder's timeout never fires before the calls return",
+			"reference: DESIGN.md Appendix A.7"),
+		BoundsText: "asset lists of length 0..3 (4 thorough) over 3 (4) ledgers given as (backend, ledger) pairs, repetitions in any order, optionally a non-multi-ledger asset; every subset of registered ledgers and of failing ledgers; methods Register, Progress, Withdraw, Fund (with every egoistic index 0..3 or none); all completion orders",
+		Outside:    []string{"preemptions inside a stub call (P>0)", "more than 4 ledgers", "funder timeouts"},
+	})
 	return defs
 }
